@@ -60,6 +60,7 @@ class Stats:
         self.bounds = {}
         self.exhaustive = True
         self.selfcheck_errors = []    # harness problems -> exit 2, never a VIOLATION
+        self.next = {}                # E1: canonical-state digest -> shortest history reaching it
 
     def fail(self, signature, message, witness):
         self.fail_counts[signature] += 1
@@ -104,6 +105,10 @@ class Stats:
         self.bounds.update(other.bounds)
         self.exhaustive = self.exhaustive and other.exhaustive
         self.selfcheck_errors.extend(other.selfcheck_errors)
+        for k, hist in other.next.items():
+            mine_h = self.next.get(k)
+            if mine_h is None or (len(hist), repr(hist)) < (len(mine_h), repr(mine_h)):
+                self.next[k] = hist
         return self
 
 
